@@ -68,6 +68,11 @@ func (s *State) evalIndexAssigment(which ast.Node, index, value object.Object) o
 	if !ok {
 		return s.NewError("identifier not found: " + id.Literal())
 	}
+	if object.Constant(id.Literal()) {
+		// Check before touching anything: large arrays/maps are updated in place, so by the time Set()
+		// compares old and new value they are the same (already modified) object and nothing is reported.
+		return s.Errorf("attempt to change constant %s: index assignment of %s", id.Literal(), value.Inspect())
+	}
 	val = object.Value(val) // deref.
 	switch val.Type() {
 	case object.ARRAY:
@@ -466,6 +471,10 @@ func (s *State) deleteMapEntry(idxE *ast.IndexExpression, index object.Object) o
 	// TODO: handle arrays too? though delete arr[idx] == arr[0:idx]+arr[idx+1:] so... no point
 	if obj.Type() != object.MAP {
 		return s.NewError("delete index on non map: " + id + " " + obj.Type().String())
+	}
+	if object.Constant(id) {
+		// Same as index assignment: large maps are modified in place, check first.
+		return s.Errorf("attempt to change constant %s: delete of %s", id, index.Inspect())
 	}
 	log.LogVf("remove map: %s from %s", index.Inspect(), id)
 	m := obj.(object.Map)
